@@ -144,7 +144,7 @@ theorem elimChild_uniform {σ : Type} (tol : α) (O : Oracles σ α) (hd : Decis
         rcases not_indeterminate_cases _ (hd s ch.idx pst path (halfspace paff l) n) with h1 | h1
         · rw [h1] at hdi; simp [NState.isInfeasible] at hdi
         · exact h1
-      exact ⟨Or.inr ⟨elimNode_state_feasible tol O n false _ _ ch _ hf, trivial⟩, Or.inr (ih _ _), by simp, by simp⟩
+      exact ⟨Or.inr ⟨elimNode_state_feasible tol O n false _ _ ch _ hf, trivial⟩, Or.inr (ih _ _), by simp [hf], by simp⟩
   | feasible =>
     simp only
     exact ⟨Or.inr ⟨elimNode_state_feasible tol O n false _ _ ch s (by simp [NState.isFeasible]), trivial⟩,
